@@ -47,7 +47,8 @@ type frameItem struct {
 
 type action struct {
 	age    int         // > 0: clock step
-	frames []frameItem // else: one read holding these frames
+	frames []frameItem // else: one read; the frames whose closing delimiter it brings
+	raw    []byte      // when set: the bytes of the read (part of a frame, or the rest of one); else the frames' wire bytes
 }
 
 type refX struct {
@@ -171,6 +172,10 @@ func toSteps(acts []action) []Step {
 			st = append(st, Step{Age: a.age, IsAge: true})
 			continue
 		}
+		if a.raw != nil {
+			st = append(st, Step{Data: a.raw})
+			continue
+		}
 		var w []byte
 		for _, it := range a.frames {
 			w = append(w, it.f.Wire()...)
@@ -184,7 +189,7 @@ func toSteps(acts []action) []Step {
 func splitReads(acts []action) []action {
 	var out []action
 	for _, a := range acts {
-		if a.age > 0 {
+		if a.age > 0 || a.raw != nil {
 			out = append(out, a)
 			continue
 		}
@@ -268,7 +273,7 @@ func (k checker) run(trs []Transfer, acts []action, kind string) {
 		}
 		// re-requests: as a set keyed by the id the request belongs to (recognised by the phone + body)
 		if len(gotRR) != len(e.rr) {
-			sig := "rate-or-missing"
+			sig := ""
 			if len(gotRR) > len(e.rr) {
 				sig = "unexpected-rerequest"
 			} else {
@@ -344,7 +349,7 @@ func mkTransfer(rng *rand.Rand, id uint16, n, maxBody int) Transfer {
 func pkt(trs []Transfer, t, no int) frameItem { return frameItem{f: trs[t].Packet(no), tr: t, no: no} }
 
 func c14(c *Ctx) {
-	c.Rule = "transfers of N packets with packet 1 and a subset of the others received (every non-empty missing subset for N <= 11 quick / 13 thorough exhaustively; N in {64,255} and random N with random subsets), then clock steps (VerifParser.Age) 4995 / 5005 ms around the 5 s limit and 59995 / 60005 ms around the 60 s limit, repeated re-request rounds, partial resupply, duplicates and impossible numbers between rounds, restarts by a new packet 1, up to three message ids concurrently, completion after resupply, late packets after expiry; every read is followed by the housekeeping pass. A case is non-trivial when a 5 s or 60 s decision is exercised with a transfer pending; distinct = distinct request lines"
+	c.Rule = "transfers of N packets with packet 1 and a subset of the others received (every non-empty missing subset for N <= 11 quick / 13 thorough exhaustively; N in {64,255} and random N with random subsets), then clock steps (VerifParser.Age) 4995 / 5005 ms around the 5 s limit and 59995 / 60005 ms around the 60 s limit, repeated re-request rounds (the triggering read sometimes holding only part of a frame), partial resupply, duplicates and impossible numbers between rounds, restarts by a new packet 1, up to three message ids concurrently, completion after resupply, late packets after expiry; every read is followed by the housekeeping pass. A case is non-trivial when a 5 s or 60 s decision is exercised with a transfer pending; distinct = distinct request lines"
 	rng := c.Rng
 	quick := c.Quick()
 	k := checker{c}
@@ -538,7 +543,14 @@ func c14(c *Ctx) {
 			default:
 				acts = append(acts, action{age: 5005})
 			}
-			acts = append(acts, action{frames: []frameItem{heartbeat(rng)}})
+			if rng.Intn(3) == 0 { // the triggering data is only PART of a frame: the pass runs at the end of that read too
+				hb := heartbeat(rng)
+				w := hb.f.Wire()
+				cut := 1 + rng.Intn(len(w)-1)
+				acts = append(acts, action{raw: w[:cut]}, action{raw: w[cut:], frames: []frameItem{hb}})
+			} else {
+				acts = append(acts, action{frames: []frameItem{heartbeat(rng)}})
+			}
 			if expire && round > 2 {
 				continue // keep idling until the 60 s limit passes
 			}
